@@ -25,7 +25,7 @@ from .cfg import InlineBlock, InlineJump
 from .core import FuncInfo, Repo, is_logging_call
 
 _counter = itertools.count(1)
-MAX_DEPTH = 4
+MAX_DEPTH = 8
 
 
 class NotInlinable(Exception):
@@ -312,6 +312,51 @@ def _own_jumps_to_blocks(body: List[ast.stmt], continue_label: str, break_label:
     return rec(body)
 
 
+def _inline_single_use_iterators(stmts: List[ast.stmt]) -> List[ast.stmt]:
+    """`it = <generator expression / map / filter / chain ..>` immediately followed (logging aside) by the only use of `it`, a `for x in it:`
+    loop: the expression is put where it is consumed"""
+    LAZY = ("map", "filter", "chain", "starmap", "zip", "enumerate", "reversed", "iter")
+
+    def lazy(v: ast.AST) -> bool:
+        if isinstance(v, ast.GeneratorExp):
+            return True
+        if isinstance(v, ast.Call):
+            f_ = v.func
+            nm = f_.id if isinstance(f_, ast.Name) else (f_.attr if isinstance(f_, ast.Attribute) else "")
+            return nm in LAZY or nm == "from_iterable"
+        return False
+
+    out: List[ast.stmt] = []
+    i = 0
+    stmts = list(stmts)
+    for st in stmts:
+        for fld in ("body", "orelse", "finalbody"):
+            sub = getattr(st, fld, None)
+            if isinstance(sub, list) and sub and isinstance(sub[0], ast.stmt) and not isinstance(st, (ast.FunctionDef, ast.AsyncFunctionDef, ast.ClassDef)):
+                setattr(st, fld, _inline_single_use_iterators(sub))
+        for h in getattr(st, "handlers", []) or []:
+            h.body = _inline_single_use_iterators(h.body)
+    while i < len(stmts):
+        st = stmts[i]
+        if isinstance(st, ast.Assign) and len(st.targets) == 1 and isinstance(st.targets[0], ast.Name) and \
+                (lazy(st.value) or isinstance(st.value, ast.Call)):
+            name = st.targets[0].id
+            j = i + 1
+            while j < len(stmts) and isinstance(stmts[j], ast.Expr) and isinstance(stmts[j].value, ast.Call) and is_logging_call(stmts[j].value) \
+                    and not any(isinstance(x, ast.Name) and x.id == name for x in ast.walk(stmts[j])):
+                j += 1
+            if j < len(stmts) and isinstance(stmts[j], ast.For) and isinstance(stmts[j].iter, ast.Name) and stmts[j].iter.id == name:
+                uses = sum(1 for later in stmts[i + 1:] for x in ast.walk(later) if isinstance(x, ast.Name) and x.id == name)
+                if uses == 1:
+                    stmts[j].iter = st.value
+                    out.extend(stmts[i + 1:j])
+                    i = j
+                    continue
+        out.append(st)
+        i += 1
+    return out
+
+
 _FRESH_EMPTY = ("set", "list", "dict", "frozenset", "tuple")
 
 
@@ -397,6 +442,9 @@ class _Desugar(ast.NodeTransformer):
         simple = self._simple_call_forms(c)
         if simple is not None:
             return simple
+        consumed = self._consumed_generator(c)
+        if consumed is not None:
+            return consumed
         if self.fv.is_value(c.func):
             got = self.fv.apply(c.func, list(c.args), list(c.keywords))
             if got is not None:
@@ -452,6 +500,22 @@ class _Desugar(ast.NodeTransformer):
 
     def visit_Assign(self, st):
         self.generic_visit(st)
+        if len(st.targets) == 1 and isinstance(st.targets[0], (ast.Tuple, ast.List)) and isinstance(st.value, ast.Call):
+            rec = self._record_as_tuple(st.value)     # a, b = Rec(x, y): unpacking a NamedTuple just built
+            if rec is not None:
+                st.value = rec
+        if len(st.targets) == 1 and isinstance(st.targets[0], (ast.Tuple, ast.List)) and isinstance(st.value, ast.GeneratorExp):
+            d = self._comp_as_display(st.value)      # unpacking consumes the generator completely, at once
+            if d is not None:
+                st.value = d
+        if len(st.targets) == 1 and isinstance(st.targets[0], (ast.Tuple, ast.List)) and isinstance(st.value, (ast.Tuple, ast.List)) \
+                and len(st.targets[0].elts) == len(st.value.elts) and all(isinstance(t, ast.Name) for t in st.targets[0].elts) \
+                and not any(isinstance(v, ast.Starred) for v in st.value.elts):
+            # a, b = x, y  ->  a = x; b = y   (when no target is read on the right: not a swap)
+            tnames = {t.id for t in st.targets[0].elts}
+            if not any(isinstance(x, ast.Name) and x.id in tnames for v in st.value.elts for x in ast.walk(v)) and len(tnames) == len(st.targets[0].elts):
+                parts = [ast.Assign(targets=[t], value=v, lineno=st.lineno) for t, v in zip(st.targets[0].elts, st.value.elts)]
+                return self._fix(parts, st)
         if len(st.targets) == 1 and isinstance(st.targets[0], ast.Name):
             sd = self._setdefault(st.value)
             if sd is not None:
@@ -523,9 +587,20 @@ class _Desugar(ast.NodeTransformer):
             return None
         fv = self.fv
         if isinstance(e, (ast.Tuple, ast.List)):
-            if any(isinstance(x, ast.Starred) for x in e.elts):
-                return None
-            return list(e.elts)
+            out: List[ast.AST] = []
+            for x in e.elts:
+                if isinstance(x, ast.Starred):      # [*T1, *T2] (also what chain(T1, T2) was turned into): the tables spliced
+                    sub = self._static_table(x.value, depth + 1)
+                    if sub is None:
+                        return None
+                    cls = getattr(self, "_table_class", None)
+                    out.extend(self._class_scoped(y, cls) for y in sub)
+                else:
+                    out.append(x)
+            return out
+        if isinstance(e, ast.Name) and e.id in getattr(self, "single_defs", {}):
+            # a local bound exactly once (to a display, or to another such local: results of helpers analysed in place)
+            return self._static_table(self.single_defs[e.id], depth + 1)
         if isinstance(e, ast.Name) and fv._global(e.id) and fv.repo is not None and fv.f is not None:
             try:
                 node = fv.repo.const_node(fv.f.mod.name, e.id)
@@ -613,6 +688,8 @@ class _Desugar(ast.NodeTransformer):
         if isinstance(e, ast.Constant) or isinstance(e, ast.Lambda):
             return True
         if isinstance(e, ast.Name):
+            if self.fv.f is not None and self.fv.f.is_method and e.id == self.fv.f.self_name and e.id not in getattr(self, "stored_names", set()):
+                return True     # the receiver itself
             return self.local_names is not None and e.id not in self.local_names
         if isinstance(e, ast.Attribute):
             return self._stable_element(e.value)
@@ -653,7 +730,7 @@ class _Desugar(ast.NodeTransformer):
 
     MAX_TABLE = 12
 
-    def _table_for(self, target: ast.AST, it: ast.AST, body_nodes: List[ast.AST]) -> Optional[List[Dict[str, ast.AST]]]:
+    def _table_for(self, target: ast.AST, it: ast.AST, body_nodes: List[ast.AST], in_place: bool = False) -> Optional[List[Dict[str, ast.AST]]]:
         """per element of a static table the substitution of the loop variables; None when the loop is not over a static table or the
         variables are rebound in the body"""
         self._table_class = None
@@ -662,7 +739,14 @@ class _Desugar(ast.NodeTransformer):
             return None
         cls = self._table_class
         table = [self._class_scoped(x, cls) for x in table]
-        if not all(self._stable_element(x) for x in table):
+
+        def pure(x: ast.AST) -> bool:
+            if isinstance(x, (ast.Tuple, ast.List)):
+                return all(pure(y) for y in x.elts)
+            return isinstance(x, ast.Constant) or _is_pure_path(x)
+
+        # (a comprehension is evaluated at one program point: its elements may be locals; a loop body runs statements in between)
+        if not all(self._stable_element(x) or (in_place and pure(x)) for x in table):
             return None
         binds = [self._bind(target, x) for x in table]
         if any(b is None for b in binds):
@@ -689,6 +773,9 @@ class _Desugar(ast.NodeTransformer):
         """a loop over a static table is written out: one copy of the body per element with the loop variables replaced; `continue`
         ends the copy, `break` ends the whole sequence, the `else` part runs when no copy broke out"""
         self.generic_visit(n)
+        nested = self._loop_over_comprehension(n)
+        if nested is not None:
+            return nested
         binds = self._table_for(n.target, n.iter, n.body)
         if binds is None:
             return n
@@ -701,7 +788,9 @@ class _Desugar(ast.NodeTransformer):
             for name, val in mapping.items():       # the loop variables keep their last values
                 body.append(ast.Assign(targets=[ast.Name(id=name, ctx=ast.Store())], value=copy.deepcopy(val), lineno=n.lineno))
             for s_ in n.body:
-                body.append(self._subst_many(s_, mapping))
+                # what the substitution makes visible (Cls.method(self, ..), a function value in call position ..) is normalised too
+                r_ = self.visit(self._subst_many(s_, mapping))
+                body.extend(r_ if isinstance(r_, list) else [r_])
             body = _own_jumps_to_blocks(body, inner, outer)
             blk = InlineBlock(test=ast.Constant(value=True), body=body or [ast.Pass()], orelse=[])
             blk.label = inner
@@ -709,6 +798,36 @@ class _Desugar(ast.NodeTransformer):
         whole = InlineBlock(test=ast.Constant(value=True), body=copies + list(n.orelse), orelse=[])
         whole.label = outer
         return self._fix([whole], n)
+
+    def _consumed_generator(self, c: ast.Call) -> Optional[ast.AST]:
+        """list / set / tuple / frozenset / dict / sorted of a private GENERATOR helper's result: the comprehension over that call (which
+        the flattener then expands in place): `dict(self._pairs())` -> `{k: v for k, v in self._pairs()}`"""
+        fv = self.fv
+        if not (isinstance(c.func, ast.Name) and c.func.id in ("list", "set", "tuple", "frozenset", "dict", "sorted") and fv._global(c.func.id)
+                and len(c.args) == 1 and not c.keywords and isinstance(c.args[0], ast.Call)) or fv.repo is None or fv.f is None:
+            return None
+        try:
+            if _resolve_generator(fv.repo, fv.f, c.args[0]) is None:
+                return None
+        except Exception:
+            return None
+        k = next(_counter)
+        gen_call = c.args[0]
+        if c.func.id == "dict":
+            kk, vv = f"key__c{k}", f"value__c{k}"
+            tgt = ast.Tuple(elts=[ast.Name(id=kk, ctx=ast.Store()), ast.Name(id=vv, ctx=ast.Store())], ctx=ast.Store())
+            new: ast.AST = ast.DictComp(key=ast.Name(id=kk, ctx=ast.Load()), value=ast.Name(id=vv, ctx=ast.Load()),
+                                        generators=[ast.comprehension(target=tgt, iter=gen_call, ifs=[], is_async=0)])
+        else:
+            var = f"item__c{k}"
+            comp = [ast.comprehension(target=ast.Name(id=var, ctx=ast.Store()), iter=gen_call, ifs=[], is_async=0)]
+            if c.func.id == "set":
+                new = ast.SetComp(elt=ast.Name(id=var, ctx=ast.Load()), generators=comp)
+            else:
+                lst = ast.ListComp(elt=ast.Name(id=var, ctx=ast.Load()), generators=comp)
+                new = lst if c.func.id == "list" else ast.Call(func=c.func, args=[lst], keywords=[])
+        ast.copy_location(new, c)
+        return ast.fix_missing_locations(new)
 
     def _simple_call_forms(self, c: ast.Call) -> Optional[ast.AST]:
         """getattr(x, "name") -> x.name;  Cls.method(self, a) -> self.method(a);  chain.from_iterable(X) -> (y for x in X for y in x);
@@ -756,8 +875,8 @@ class _Desugar(ast.NodeTransformer):
                 and not any(isinstance(a, ast.Starred) for a in v.args)):
             return None
         fn_, it, init = v.args
-        if any(isinstance(x, ast.Name) and x.id == target.id for x in ast.walk(v)):
-            return None
+        if any(isinstance(x, ast.Name) and x.id == target.id for part in (fn_, it) for x in ast.walk(part)):
+            return None     # (the initial value may mention the target: `acc = reduce(f, xs, acc)`)
         k = next(_counter)
         var = f"item__c{k}"
         step_args = [ast.Name(id=target.id, ctx=ast.Load()), ast.Name(id=var, ctx=ast.Load())]
@@ -772,6 +891,58 @@ class _Desugar(ast.NodeTransformer):
         out = self._fix([first, loop], st)
         return [y for x in out for y in (lambda r_: r_ if isinstance(r_, list) else [r_])(self.visit(x))]
 
+    def _loop_over_comprehension(self, n: ast.For):
+        """`for x in (E for a in A if C for b in B): BODY` -> `for a in A: if C: for b in B: x = E; BODY` (BODY without `break` / `else`;
+        the comprehension's variables get fresh names)"""
+        it = n.iter
+        if not isinstance(it, (ast.GeneratorExp, ast.ListComp)) or n.orelse or any(g.is_async for g in it.generators):
+            return None
+        if any(isinstance(x, (ast.NamedExpr, ast.Yield, ast.YieldFrom, ast.Await)) for x in ast.walk(it)):
+            return None
+
+        def has_break(stmts) -> bool:
+            for s_ in stmts:
+                if isinstance(s_, ast.Break):
+                    return True
+                if isinstance(s_, (ast.For, ast.While, ast.AsyncFor)):
+                    if has_break(s_.orelse):
+                        return True
+                    continue
+                for fld in ("body", "orelse", "finalbody"):
+                    if has_break(getattr(s_, fld, []) or []):
+                        return True
+                for h in getattr(s_, "handlers", []) or []:
+                    if has_break(h.body):
+                        return True
+            return False
+
+        if has_break(n.body):
+            return None
+        k = next(_counter)
+        names = {x.id for g_ in it.generators for x in ast.walk(g_.target) if isinstance(x, ast.Name)}
+        ren = _Renamer({nm: f"{nm}__c{k}" for nm in names})
+        it = copy.deepcopy(it)
+        first_iter = it.generators[0].iter      # evaluated in the enclosing scope
+        gens = []
+        for i, g_ in enumerate(it.generators):
+            tgt = ren.visit(g_.target)
+            itx = g_.iter if i == 0 else ren.visit(g_.iter)
+            gens.append((tgt, itx, [ren.visit(c) for c in g_.ifs]))
+        elt = ren.visit(it.elt)
+        inner: List[ast.stmt] = [ast.Assign(targets=[n.target], value=elt, lineno=n.lineno)] + list(n.body)
+        for tgt, itx, ifs in reversed(gens):
+            body = inner
+            if ifs:
+                test = ifs[0] if len(ifs) == 1 else ast.BoolOp(op=ast.And(), values=ifs)
+                body = [ast.If(test=test, body=inner, orelse=[])]
+            inner = [ast.For(target=tgt, iter=itx, body=body, orelse=[])]
+        out = self._fix(inner, n)
+        res: List[ast.stmt] = []
+        for x in out:
+            r_ = self.visit(x)      # the new loops may themselves run over static tables / comprehensions
+            res.extend(r_ if isinstance(r_, list) else [r_])
+        return res
+
     def _any_all_over_table(self, c: ast.Call) -> Optional[ast.AST]:
         """`any(E for v in TABLE [if C])` -> `(C1 and E1) or (C2 and E2) ..`, `all(..)` -> `((not C1) or E1) and ..` over a static table
         (same evaluation order and short-circuit)"""
@@ -784,7 +955,7 @@ class _Desugar(ast.NodeTransformer):
         gen = comp.generators[0]
         if gen.is_async or any(isinstance(x, (ast.NamedExpr, ast.Yield, ast.YieldFrom, ast.Await)) for x in ast.walk(comp)):
             return None
-        binds = self._table_for(gen.target, gen.iter, [comp.elt] + list(gen.ifs))
+        binds = self._table_for(gen.target, gen.iter, [comp.elt] + list(gen.ifs), in_place=True)
         if binds is None:
             return None
         is_any = c.func.id == "any"
@@ -813,8 +984,53 @@ class _Desugar(ast.NodeTransformer):
         return self._unroll_comp(n)
 
     def _unroll_comp(self, n):
+        """`[E for v in TABLE]` / `{E for v in TABLE}` over a static table (no filter) is the display of its elements"""
         self.generic_visit(n)
+        if isinstance(n, (ast.ListComp, ast.SetComp)):
+            d = self._comp_as_display(n)
+            if d is not None:
+                return d
         return n
+
+    def _record_as_tuple(self, call: ast.Call) -> Optional[ast.Tuple]:
+        repo = self.fv.repo
+        if repo is None or not (isinstance(call.func, ast.Name) and call.func.id in repo.classes and self.fv._global(call.func.id)):
+            return None
+        ci = repo.classes[call.func.id]
+        if getattr(ci, "record_kind", None) != "namedtuple":
+            return None
+        if any(isinstance(a, ast.Starred) for a in call.args) or any(k.arg is None for k in call.keywords):
+            return None
+        vals: Dict[str, ast.AST] = {}
+        for (f_, _d), a in zip(ci.record_fields, call.args):
+            vals[f_] = a
+        for k in call.keywords:
+            vals[k.arg] = k.value
+        elts = []
+        for f_, d in ci.record_fields:
+            if f_ in vals:
+                elts.append(vals[f_])
+            elif d is not None:
+                elts.append(copy.deepcopy(d))
+            else:
+                return None
+        new = ast.Tuple(elts=elts, ctx=ast.Load())
+        ast.copy_location(new, call)
+        return ast.fix_missing_locations(new)
+
+    def _comp_as_display(self, n):
+        if len(n.generators) != 1 or n.generators[0].ifs or n.generators[0].is_async:
+            return None
+        if any(isinstance(x, (ast.NamedExpr, ast.Yield, ast.YieldFrom, ast.Await)) for x in ast.walk(n)):
+            return None
+        gen = n.generators[0]
+        binds = self._table_for(gen.target, gen.iter, [n.elt], in_place=True)
+        if binds is None:
+            return None
+        elts = [self._subst_many(n.elt, m) for m in binds]
+        new = ast.Set(elts=elts) if isinstance(n, ast.SetComp) else (ast.List(elts=elts, ctx=ast.Load()) if isinstance(n, ast.ListComp) else ast.Tuple(elts=elts, ctx=ast.Load()))
+        ast.copy_location(new, n)
+        return ast.fix_missing_locations(new)
 
 
 class _BoolOpToIf(ast.NodeTransformer):
@@ -921,10 +1137,12 @@ class _TableDispatch(ast.NodeTransformer):
                 return None
             helper = _Desugar(None, self.repo, self.f)
             node = helper._class_attr(cls, e.attr)
+            node = self._fold_keys(node)
             if not isinstance(node, ast.Dict) or not node.keys or any(k is None or not isinstance(k, ast.Constant) for k in node.keys):
                 return None
-            node = helper._class_scoped(node, cls)
-            if not all(isinstance(v, (ast.Attribute, ast.Name)) for v in node.values):
+            vals = [helper._class_scoped(v, cls) for v in node.values]
+            node = ast.Dict(keys=list(node.keys), values=vals)
+            if not all(self._value_ok(v) for v in node.values):
                 return None
             return node
         if not isinstance(e, ast.Name):
@@ -941,16 +1159,43 @@ class _TableDispatch(ast.NodeTransformer):
                 node = None
             if isinstance(node, ast.Dict):
                 d = node
+        d = self._fold_keys(d)
         if d is None or not d.keys or any(k is None or not isinstance(k, ast.Constant) for k in d.keys):
             return None
-        if not all(isinstance(v, (ast.Attribute, ast.Name)) for v in d.values):
+        if not all(self._value_ok(v) for v in d.values):
             return None
         return d
+
+    def _fold_keys(self, d):
+        """keys written as names of module-level literal constants are those literals"""
+        if not isinstance(d, ast.Dict) or self.repo is None or self.f is None:
+            return d
+        keys = []
+        for k in d.keys:
+            if isinstance(k, ast.Name) and k.id not in self.local:
+                try:
+                    ok, v = self.repo.const_value(self.f.mod.name, k.id)
+                except Exception:
+                    ok, v = False, None
+                if ok and isinstance(v, (str, int, float, bool)) or (ok and v is None):
+                    keys.append(ast.copy_location(ast.Constant(value=v), k))
+                    continue
+            keys.append(k)
+        return ast.Dict(keys=keys, values=list(d.values))
+
+    def _value_ok(self, v: ast.AST) -> bool:
+        if isinstance(v, (ast.Attribute, ast.Name, ast.Constant)):
+            return True
+        if isinstance(v, (ast.Tuple, ast.List)):
+            return all(self._value_ok(x) for x in v.elts)
+        return False
 
     def _dispatch_call(self, call: ast.AST):
         """(table dict, key expression, call) when `call` is TABLE[key](...)"""
         if isinstance(call, ast.Call) and isinstance(call.func, ast.Subscript) and not isinstance(call.func.slice, ast.Slice):
             d = self._table(call.func.value)
+            if d is not None and not all(isinstance(v, (ast.Attribute, ast.Name)) for v in d.values):
+                d = None
             if d is not None and isinstance(call.func.slice, (ast.Name, ast.Attribute, ast.Subscript, ast.Constant)):
                 return d, call.func.slice, call
         return None
@@ -997,7 +1242,7 @@ class _TableDispatch(ast.NodeTransformer):
                 # h = TABLE[key]  ->  if key == c1: h = f1 elif ..: else: h = TABLE[key]   (the call through h is split by definition later)
                 d, key, dflt, has_default = got
                 mk = lambda val: ast.copy_location(ast.Assign(targets=copy.deepcopy(st.targets), value=val, lineno=st.lineno), st)
-                tail: List[ast.stmt] = [mk(copy.deepcopy(dflt))] if has_default else [st]
+                tail: List[ast.stmt] = [st]      # unknown keys: the lookup as written (rules that look for the table still find it)
                 chain = None
                 for k, v in reversed(list(zip(d.keys, d.values))):
                     test = ast.Compare(left=copy.deepcopy(key), ops=[ast.Eq()], comparators=[copy.deepcopy(k)])
@@ -1015,6 +1260,58 @@ class _TableDispatch(ast.NodeTransformer):
         return self._rewrite(st, st.value, lambda c: ast.copy_location(ast.Return(value=c), st))
 
 
+def _dispatch_tail_duplication(stmts: List[ast.stmt], td: "_TableDispatch", budget: List[int]) -> List[ast.stmt]:
+    """`a, b = TABLE[key]` (or `h = TABLE[key]` / `.get(key)`) followed by the statements that use what was looked up: the rest of the block
+    is repeated under `if key == c1: .. elif key == c2: .. else: <as written>` with the looked-up values written in place of the names
+    (they are constants / functions of the table).  Exact; bounded by a size budget."""
+    for st in stmts:
+        for fld in ("body", "orelse", "finalbody"):
+            sub = getattr(st, fld, None)
+            if isinstance(sub, list) and sub and isinstance(sub[0], ast.stmt) and not isinstance(st, (ast.FunctionDef, ast.AsyncFunctionDef, ast.ClassDef)):
+                setattr(st, fld, _dispatch_tail_duplication(sub, td, budget))
+        for h in getattr(st, "handlers", []) or []:
+            h.body = _dispatch_tail_duplication(h.body, td, budget)
+    for i, st in enumerate(stmts):
+        if not (isinstance(st, ast.Assign) and len(st.targets) == 1):
+            continue
+        tgt = st.targets[0]
+        got = td._lookup(st.value)
+        if got is None:
+            continue
+        d, key, dflt, has_default = got
+        if isinstance(tgt, ast.Name):
+            names = [tgt.id]
+            if all(isinstance(v, (ast.Name, ast.Attribute)) for v in d.values):
+                continue        # a plain function per key: handled by definition tags (keeps the code small)
+        elif isinstance(tgt, (ast.Tuple, ast.List)) and all(isinstance(x, ast.Name) for x in tgt.elts) and \
+                all(isinstance(v, (ast.Tuple, ast.List)) and len(v.elts) == len(tgt.elts) for v in d.values):
+            names = [x.id for x in tgt.elts]
+        else:
+            continue
+        rest = stmts[i + 1:]
+        size = sum(1 for r_ in rest for _x in ast.walk(r_))
+        if not rest or size * len(d.keys) > budget[0] or not _is_pure_path(key) and not isinstance(key, (ast.Subscript, ast.Constant)):
+            continue
+        if any(isinstance(x, ast.Name) and x.id in names and not isinstance(x.ctx, ast.Load) for r_ in rest for x in ast.walk(r_)):
+            continue        # rebound later: no substitution
+        if any(isinstance(x, (ast.FunctionDef, ast.AsyncFunctionDef, ast.ClassDef, ast.Global, ast.Nonlocal)) for r_ in rest for x in ast.walk(r_)):
+            continue
+        budget[0] -= size * len(d.keys)
+        chain: List[ast.stmt] = [st] + rest       # unknown key: as written
+        for k, v in reversed(list(zip(d.keys, d.values))):
+            vals = [v] if isinstance(tgt, ast.Name) else list(v.elts)
+            mapping = dict(zip(names, vals))
+            assign = ast.Assign(targets=[copy.deepcopy(tgt)], value=copy.deepcopy(v), lineno=st.lineno)
+            body = [ast.copy_location(assign, st)] + [_Desugar._subst_many(r_, mapping) for r_ in rest]
+            test = ast.Compare(left=copy.deepcopy(key), ops=[ast.Eq()], comparators=[copy.deepcopy(k)])
+            node = ast.If(test=test, body=body, orelse=chain)
+            ast.copy_location(node, st)
+            ast.fix_missing_locations(node)
+            chain = [node]
+        return stmts[:i] + chain
+    return stmts
+
+
 def normalise_body(body: List[ast.stmt], repo: Optional[Repo] = None, f: Optional[FuncInfo] = None) -> List[ast.stmt]:
     out = []
     t, u = _LoopsToAny(), _IfExpToIf()
@@ -1024,10 +1321,31 @@ def normalise_body(body: List[ast.stmt], repo: Optional[Repo] = None, f: Optiona
         bound |= {a.arg for x in ast.walk(scope) if isinstance(x, ast.arguments) for a in x.posonlyargs + x.args + x.kwonlyargs}
         bound |= set(f.params) if f is not None else set()
         ds = _Desugar(bound if f is not None and not any(isinstance(x, (ast.Global, ast.Nonlocal)) for x in ast.walk(scope)) else None, repo, f)
-        body = [y for st in copy.deepcopy(body) for y in (lambda r_: r_ if isinstance(r_, list) else [r_])(ds.visit(st))]
+        counts: Dict[str, int] = {}
+        for x in ast.walk(scope):
+            if isinstance(x, ast.Name) and not isinstance(x.ctx, ast.Load):
+                counts[x.id] = counts.get(x.id, 0) + 1
+        ds.stored_names = set(counts)
+        ds.single_defs = {}
+        for x in ast.walk(scope):
+            tgt = val = None
+            if isinstance(x, ast.Assign) and len(x.targets) == 1 and isinstance(x.targets[0], ast.Name):
+                tgt, val = x.targets[0].id, x.value
+            elif isinstance(x, ast.AnnAssign) and isinstance(x.target, ast.Name) and x.value is not None:
+                tgt, val = x.target.id, x.value
+            if tgt and counts.get(tgt) == 1 and (f is None or tgt not in f.params) and isinstance(val, (ast.Tuple, ast.List, ast.Name, ast.Dict)):
+                ds.single_defs[tgt] = val
+        body = _inline_single_use_iterators(copy.deepcopy(body))
+        body = [y for st in body for y in (lambda r_: r_ if isinstance(r_, list) else [r_])(ds.visit(st))]
     except Exception:
         pass
     try:
+        td = _TableDispatch(repo, f, ast.Module(body=body, type_ignores=[]))
+        body = _dispatch_tail_duplication(list(body), td, [6000])
+        # the copies may hold getattr(x, "name") / Cls.m(self, ..) / function values in call position now
+        ds2 = _Desugar(ds.local_names if "ds" in dir() else None, repo, f)
+        ds2.stored_names, ds2.single_defs = getattr(ds, "stored_names", set()), {}
+        body = [y for st in body for y in (lambda r_: r_ if isinstance(r_, list) else [r_])(ds2.visit(st))]
         td = _TableDispatch(repo, f, ast.Module(body=body, type_ignores=[]))
         body = [y for st in body for y in (lambda r_: r_ if isinstance(r_, list) else [r_])(td.visit(st))]
     except Exception:
@@ -1075,6 +1393,18 @@ class _Renamer(ast.NodeTransformer):
             return ast.copy_location(ast.Name(id=self.m[n.id], ctx=n.ctx), n)
         return n
 
+    def visit_Lambda(self, n):
+        # the lambda's own parameters shadow the helper's locals of the same name inside its body
+        a = n.args
+        own = {x.arg for x in a.posonlyargs + a.args + a.kwonlyargs + ([a.vararg] if a.vararg else []) + ([a.kwarg] if a.kwarg else [])}
+        hidden = {k: self.m.pop(k) for k in list(self.m) if k in own}
+        try:
+            n.args.defaults = [self.visit(d) for d in n.args.defaults]
+            n.body = self.visit(n.body)
+        finally:
+            self.m.update(hidden)
+        return n
+
     def visit_arg(self, n):
         return n
 
@@ -1109,33 +1439,66 @@ class Flattener:
         """(callee, receiver expression or None) when the call may be inlined"""
         fn = call.func
         name = fn.attr if isinstance(fn, ast.Attribute) else (fn.id if isinstance(fn, ast.Name) else None)
-        if name is None or not (_is_private(name) or name in self.also):
+        if name is None:
+            return None
+        by_name = _is_private(name) or name in self.also
+        if not by_name and not (isinstance(fn, ast.Attribute) and not (name.startswith("__") and name.endswith("__"))):
             return None
         if any(isinstance(a, ast.Starred) for a in call.args) or any(k.arg is None for k in call.keywords):
             return None
+        if getattr(call, "_no_inline", False):
+            return None
+        if not by_name:
+            # methods of PRIVATE classes (records and other helpers of the module) are private helpers too
+            recv_t = fn.value
+            if not (isinstance(recv_t, ast.Name) and (recv_t.id.startswith("_") or recv_t.id in self._private_typed(caller))):
+                return None
         cat, tg = self.repo.resolve_call(caller, call)
         tg = [t for t in tg if t[1] is not None]
         if cat != "repo" or len({t[1].qn for t in tg}) != 1:
             return None
         callee = tg[0][1]
-        if getattr(call, "_no_inline", False):
+        if not by_name and not (callee.cls and callee.cls.startswith("_")):
             return None
         if callee.qn in stack or callee.qn == self.f.qn:
             call._no_inline = True      # recursion: stays a call, also when the flattened body is flattened again
             return None
         if any(isinstance(n, (ast.Yield, ast.YieldFrom)) for n in ast.walk(callee.node)):
             return None
-        if any(not (isinstance(d, ast.Name) and d.id == "staticmethod") for d in callee.node.decorator_list):
+        if any(not (isinstance(d, ast.Name) and d.id in ("staticmethod", "classmethod")) for d in callee.node.decorator_list):
             return None
+        is_classmethod = any(isinstance(d, ast.Name) and d.id == "classmethod" for d in callee.node.decorator_list)
         recv = None
         if callee.is_method:
             if isinstance(fn, ast.Attribute):
-                if isinstance(fn.value, ast.Name) and fn.value.id in self.repo.classes and fn.value.id == callee.cls:
+                if is_classmethod:
+                    if not (isinstance(fn.value, ast.Name) and fn.value.id in self.repo.classes):
+                        return None     # cls.m(..) / obj.m(..) on a classmethod: the class is not written here
+                elif isinstance(fn.value, ast.Name) and fn.value.id in self.repo.classes and fn.value.id == callee.cls:
                     return None  # Class._m(obj, ...) form: not handled
                 recv = fn.value
             else:
                 return None
         return callee, recv
+
+    def _private_typed(self, caller: FuncInfo) -> Set[str]:
+        """names in `caller` that are annotated with a private class (parameters `group: _TypedNames`)"""
+        key = caller.qn
+        cache = self.__dict__.setdefault("_ptyped", {})
+        if key not in cache:
+            out = set()
+            for a in caller.node.args.posonlyargs + caller.node.args.args + caller.node.args.kwonlyargs:
+                if a.annotation is not None:
+                    t = ast.unparse(a.annotation).strip("'\"")
+                    if t.startswith("_") and t in self.repo.classes:
+                        out.add(a.arg)
+            for n in ast.walk(caller.node):
+                if isinstance(n, ast.AnnAssign) and isinstance(n.target, ast.Name):
+                    t = ast.unparse(n.annotation).strip("'\"")
+                    if t.startswith("_") and t in self.repo.classes:
+                        out.add(n.target.id)
+            cache[key] = out
+        return cache[key]
 
     # ------------------------------------------------------------------ one inlining
     def _instantiate(self, callee: FuncInfo, call: ast.Call, recv: Optional[ast.AST], stack, depth) -> Tuple[List[ast.stmt], ast.AST]:
@@ -1203,7 +1566,11 @@ class Flattener:
         sub.bodies = self.bodies
         stmts = sub._flatten_block(stmts, callee, stack + (callee.qn,), depth + 1, rename=mapping)
         self.inlined.append(callee.qn)
-        self.bodies.append((callee.qn, {orig: name for name, _v, orig in binds}, [x for x in stmts if x not in pre]))
+        put = [x for x in stmts if x not in pre]
+        for x in put:
+            x._inl = n          # survives the copies made by later normalisation rounds: the bodies are collected from the final tree
+            x._inl_stack = stack + (callee.qn,)     # ... and so does the chain of helpers this code came from (recursion stays a call)
+        self.bodies.append((callee.qn, {orig: name for name, _v, orig in binds}, put, n))
         result = ast.copy_location(ast.Name(id=ret, ctx=ast.Load()), call) if has_value else ast.copy_location(ast.Constant(value=None), call)
         return stmts, result
 
@@ -1270,6 +1637,9 @@ class Flattener:
         return body
 
     def _flatten_stmt(self, s: ast.stmt, ctx: FuncInfo, stack, depth, rename) -> List[ast.stmt]:
+        came_from = getattr(s, "_inl_stack", None)
+        if came_from:
+            stack = tuple(dict.fromkeys(tuple(stack) + tuple(came_from)))
         if depth > self.depth:
             return [s]
         COMPS = (ast.ListComp, ast.SetComp, ast.DictComp)
@@ -1288,6 +1658,31 @@ class Flattener:
                 for x in new:
                     ast.fix_missing_locations(x)
                 return self._flatten_block(new, ctx, stack, depth, rename)
+        # comprehensions that are ARGUMENTS of the call the statement evaluates (`return State({..}, {..}, flag)`) are evaluated first, in order:
+        # each becomes a statement of its own when everything evaluated before it is a plain name / attribute path / constant
+        if isinstance(s, (ast.Assign, ast.AnnAssign, ast.Return, ast.Expr)) and isinstance(val, ast.Call) and not getattr(s, "_hoisted", False) \
+                and _is_pure_path(val.func) if isinstance(val, ast.Call) else False:
+            slots = [("args", i) for i in range(len(val.args))] + [("kw", i) for i in range(len(val.keywords))]
+            pre_stmts: List[ast.stmt] = []
+            ok_so_far = True
+            for kind, i in slots:
+                a = val.args[i] if kind == "args" else val.keywords[i].value
+                if isinstance(a, COMPS) and ok_so_far and self._has_inlinable_call(a, ctx, stack, rename):
+                    tmp = f"__arg__c{next(_counter)}"
+                    pre_stmts.append(ast.copy_location(ast.Assign(targets=[ast.Name(id=tmp, ctx=ast.Store())], value=a, lineno=s.lineno), s))
+                    new_a = ast.copy_location(ast.Name(id=tmp, ctx=ast.Load()), a)
+                    if kind == "args":
+                        val.args[i] = new_a
+                    else:
+                        val.keywords[i].value = new_a
+                    continue
+                if not (isinstance(a, ast.Constant) or _is_pure_path(a)):
+                    ok_so_far = False
+            if pre_stmts:
+                s._hoisted = True
+                for x in pre_stmts:
+                    ast.fix_missing_locations(x)
+                return self._flatten_block(pre_stmts + [s], ctx, stack, depth, rename)
         if isinstance(s, ast.Expr) and isinstance(s.value, ast.Call) and isinstance(s.value.func, ast.Attribute) and s.value.func.attr in ("update", "extend") \
                 and len(s.value.args) == 1 and isinstance(s.value.args[0], (ast.ListComp, ast.SetComp, ast.GeneratorExp)) and isinstance(s.value.func.value, ast.Name) \
                 and self._has_inlinable_call(s.value.args[0], ctx, stack, rename):
@@ -1372,13 +1767,28 @@ class Flattener:
         except Exception:
             pass
         try:
-            for _ in range(3):
-                # helper parameters bound to function values are applied; helpers that become visible that way are analysed in place too
-                a = bool(self.inlined) and apply_bound_function_values(self.repo, self.f, fn)
+            for _ in range(4):
+                # helper parameters bound to function values are applied, calls through function-valued locals split, constant-key
+                # dicts split, iterator aliases created by inlining put where they are consumed; what becomes visible that way
+                # (helpers, generator helpers, loops over comprehensions / static tables) is analysed in place in a further round
+                a = apply_bound_function_values(self.repo, self.f, fn)
+                c = split_constant_dicts(fn)
+                c = split_tuples(self.repo, fn) or c
                 b = devirtualise_calls(self.repo, self.f, fn)
-                if not (a or b):
+                before = ast.dump(ast.Module(body=fn.body, type_ignores=[]))
+                fn.body = _inline_single_use_iterators(fn.body)
+                d = ast.dump(ast.Module(body=fn.body, type_ignores=[])) != before
+                e = _ == 0 and bool(self.inlined)      # what inlining put next to each other (a table returned by a helper and the loop over it ..)
+                if not (a or b or c or d or e):
                     break
-                fn.body = self._flatten_block(normalise_body(list(fn.body), self.repo, self.f), self.f, (self.f.qn,), 1)
+                before_round = ast.dump(ast.Module(body=fn.body, type_ignores=[])) if not (a or b or c or d) else None
+                fn.body = self._flatten_block(_loops_over_generators(self.repo, self.f, normalise_body(list(fn.body), self.repo, self.f)),
+                                              self.f, (self.f.qn,), 1)
+                try:
+                    if expand_generators(self.repo, self.f, fn, (self.f.qn,)):
+                        self.inlined.append("<generator helpers>")
+                except Exception:
+                    pass
         except Exception:
             pass
         propagate_constants(self.repo, self.f, fn)
@@ -1389,7 +1799,13 @@ class Flattener:
         flat.qn = self.f.qn            # findings are reported against the public function
         flat.flat_of = self.f
         flat.inlined = list(dict.fromkeys(self.inlined))
-        flat.inlined_bodies = self.bodies
+        # the statements each helper instance turned into, as they are in the final tree
+        by_tag: Dict[int, List[ast.stmt]] = {}
+        for x in ast.walk(fn):
+            t = getattr(x, "_inl", None)
+            if t is not None and isinstance(x, ast.stmt):
+                by_tag.setdefault(t, []).append(x)
+        flat.inlined_bodies = [(qn, binds, by_tag.get(tag, stmts)) for qn, binds, stmts, tag in self.bodies]
         return flat
 
 
@@ -1404,6 +1820,7 @@ def apply_bound_function_values(repo: Repo, f: FuncInfo, fn: ast.FunctionDef) ->
     local_names = set(stores) | {a.arg for x in ast.walk(fn) if isinstance(x, ast.arguments) for a in x.posonlyargs + x.args + x.kwonlyargs + ([x.vararg] if x.vararg else []) + ([x.kwarg] if x.kwarg else [])}
     fv = FunctionValues(repo, f, local_names)
     self_name = f.self_name if f.is_method else None
+    local_params = local_names - set(stores)
 
     def stable(v: ast.AST) -> bool:
         if fv.is_value(v):
@@ -1423,6 +1840,11 @@ def apply_bound_function_values(repo: Repo, f: FuncInfo, fn: ast.FunctionDef) ->
         elif isinstance(n, ast.AnnAssign) and isinstance(n.target, ast.Name) and n.value is not None:
             tgt, val = n.target.id, n.value
         if tgt and "__i" in tgt and stores.get(tgt) == 1 and stable(val):
+            bound[tgt] = val
+        elif tgt and stores.get(tgt) == 1 and tgt not in local_params and fv.is_value(val) and \
+                all(stores.get(x.id, 0) <= 1 for x in ast.walk(val) if isinstance(x, ast.Name)):
+            # a local bound once to a function value written in place (`ground = partial(f, m=m)`, `key = attrgetter("a")`, a lambda) whose
+            # captured names are never rebound: calling it later is calling that value
             bound[tgt] = val
     if not bound:
         return False
@@ -1491,19 +1913,18 @@ def devirtualise_calls(repo: Repo, f: FuncInfo, fn: ast.FunctionDef) -> bool:
     def value_of(st):
         return st.value
 
-    # names all of whose definitions are function values / None / copies of such names
-    carrying: Set[str] = {nm for nm in simple_defs if nm not in opaque}
+    # names some of whose definitions are function values (directly or through copies of such names); any other definition
+    # (None, a table lookup kept as fallback, ..) gets the tag 0 = "not one of the known functions"
+    carrying: Set[str] = set()
     changed = True
     while changed:
         changed = False
-        for nm in list(carrying):
-            for st in simple_defs[nm]:
-                v = value_of(st)
-                ok = function_value(v) or (isinstance(v, ast.Constant) and v.value is None) or (isinstance(v, ast.Name) and v.id in carrying)
-                if not ok:
-                    carrying.discard(nm)
-                    changed = True
-                    break
+        for nm in simple_defs:
+            if nm in opaque or nm in carrying:
+                continue
+            if any(function_value(value_of(st)) or (isinstance(value_of(st), ast.Name) and value_of(st).id in carrying) for st in simple_defs[nm]):
+                carrying.add(nm)
+                changed = True
 
     def sources(nm: str, seen=None) -> List[ast.stmt]:
         seen = set() if seen is None else seen
@@ -1609,6 +2030,373 @@ def devirtualise_calls(repo: Repo, f: FuncInfo, fn: ast.FunctionDef) -> bool:
 
     fn.body = rewrite(fn.body)
     return did[0]
+
+
+def split_constant_dicts(fn: ast.FunctionDef) -> bool:
+    """a local dict display with constant keys that is only ever indexed (`d[k]`, `d[k] = v`, `d[k].append(x)`) with constant keys -- or,
+    for the keys {True, False}, with a boolean expression -- is one local per key: `by_polarity = {False: [], True: []}` /
+    `by_polarity[bool(e.is_positive)].append(e)` / `for e in by_polarity[False]` become `p__False = []; p__True = []` /
+    `if e.is_positive: p__True.append(e) else: p__False.append(e)` / `for e in p__False`.  Exact (the dict never escapes).  True when
+    something changed."""
+    defs: Dict[str, List[ast.stmt]] = {}
+    stores: Dict[str, int] = {}
+    for n in ast.walk(fn):
+        if isinstance(n, ast.Name) and not isinstance(n.ctx, ast.Load):
+            stores[n.id] = stores.get(n.id, 0) + 1
+        if isinstance(n, ast.Assign) and len(n.targets) == 1 and isinstance(n.targets[0], ast.Name) and isinstance(n.value, ast.Dict):
+            defs.setdefault(n.targets[0].id, []).append(n)
+        elif isinstance(n, ast.AnnAssign) and isinstance(n.target, ast.Name) and isinstance(n.value, ast.Dict):
+            defs.setdefault(n.target.id, []).append(n)
+    params = {a.arg for x in ast.walk(fn) if isinstance(x, ast.arguments) for a in x.posonlyargs + x.args + x.kwonlyargs}
+    parents: Dict[ast.AST, ast.AST] = {}
+    for n in ast.walk(fn):
+        for c in ast.iter_child_nodes(n):
+            parents[c] = n
+
+    def boolean(e: ast.AST) -> Optional[ast.AST]:
+        """the truth-valued expression a {True, False} dict is indexed with (bool(..) unwrapped); None when it is not certainly a bool"""
+        if isinstance(e, ast.Call) and isinstance(e.func, ast.Name) and e.func.id == "bool" and len(e.args) == 1 and not e.keywords:
+            return e.args[0]
+        if isinstance(e, ast.Compare) or (isinstance(e, ast.UnaryOp) and isinstance(e.op, ast.Not)):
+            return e
+        if isinstance(e, ast.BoolOp) and all(boolean(v) is not None for v in e.values):
+            return e
+        return None
+
+    todo = {}
+    for name, ds in defs.items():
+        if len(ds) != 1 or stores.get(name) != 1 or name in params:
+            continue
+        d = ds[0].value
+        if not d.keys or any(k is None or not isinstance(k, ast.Constant) for k in d.keys):
+            continue
+        keys = [k.value for k in d.keys]
+        try:
+            if len(set(keys)) != len(keys):
+                continue
+        except TypeError:
+            continue
+        bool_keys = set(keys) == {True, False} and all(isinstance(k, bool) for k in keys)
+        ok = True
+        for n in ast.walk(fn):
+            if isinstance(n, ast.Name) and n.id == name and isinstance(n.ctx, ast.Load):
+                par = parents.get(n)
+                if not (isinstance(par, ast.Subscript) and par.value is n and not isinstance(par.slice, ast.Slice)):
+                    ok = False
+                    break
+                k = par.slice
+                if isinstance(k, ast.Constant):
+                    try:
+                        if k.value not in keys or (isinstance(k.value, bool) != isinstance(keys[keys.index(k.value)], bool)):
+                            ok = False
+                            break
+                    except TypeError:
+                        ok = False
+                        break
+                elif not (bool_keys and boolean(k) is not None):
+                    ok = False
+                    break
+                if isinstance(par.ctx, ast.Del):
+                    ok = False
+                    break
+        if ok:
+            todo[name] = (ds[0], keys, bool_keys)
+    if not todo:
+        return False
+
+    def local(name: str, key) -> str:
+        return f"{name}__{'k' if not isinstance(key, (bool, str, int)) else ''}{str(key).replace('-', 'm').replace('.', '_').replace(' ', '_') if not isinstance(key, str) or key.isidentifier() else 'k' + str(abs(hash(key)) % 10 ** 8)}"
+
+    class Const(ast.NodeTransformer):
+        def visit_Subscript(self, n):
+            self.generic_visit(n)
+            if isinstance(n.value, ast.Name) and n.value.id in todo and isinstance(n.slice, ast.Constant):
+                return ast.copy_location(ast.Name(id=local(n.value.id, n.slice.value), ctx=n.ctx), n)
+            return n
+
+    class Pick(ast.NodeTransformer):
+        def __init__(self, name, which):
+            self.name, self.which = name, which
+
+        def visit_Subscript(self, n):
+            self.generic_visit(n)
+            if isinstance(n.value, ast.Name) and n.value.id == self.name and not isinstance(n.slice, ast.Constant):
+                return ast.copy_location(ast.Name(id=local(self.name, self.which), ctx=n.ctx), n)
+            return n
+
+    def dynamic_index(st: ast.stmt):
+        for n in ast.walk(st):
+            if isinstance(n, ast.Subscript) and isinstance(n.value, ast.Name) and n.value.id in todo and not isinstance(n.slice, ast.Constant):
+                return n
+        return None
+
+    def rewrite(stmts: List[ast.stmt]) -> List[ast.stmt]:
+        out: List[ast.stmt] = []
+        for st in stmts:
+            for fld in ("body", "orelse", "finalbody"):
+                sub = getattr(st, fld, None)
+                if isinstance(sub, list) and sub and isinstance(sub[0], ast.stmt) and not isinstance(st, (ast.FunctionDef, ast.AsyncFunctionDef, ast.ClassDef)):
+                    setattr(st, fld, rewrite(sub))
+            for h in getattr(st, "handlers", []) or []:
+                h.body = rewrite(h.body)
+            hit = next((nm for nm, (dst, _k, _b) in todo.items() if dst is st), None)
+            if hit is not None:
+                d = st.value
+                for k, v in zip(d.keys, d.values):
+                    new = ast.Assign(targets=[ast.Name(id=local(hit, k.value), ctx=ast.Store())], value=v, lineno=st.lineno)
+                    out.append(ast.fix_missing_locations(ast.copy_location(new, st)))
+                continue
+            if isinstance(st, (ast.Expr, ast.Assign, ast.AugAssign, ast.AnnAssign, ast.Return)):
+                dyn = dynamic_index(st)
+                if dyn is not None:
+                    name = dyn.value.id
+                    test = boolean(dyn.slice)
+                    yes = Pick(name, True).visit(copy.deepcopy(st))
+                    no = Pick(name, False).visit(copy.deepcopy(st))
+                    node = ast.If(test=copy.deepcopy(test), body=rewrite([yes]), orelse=rewrite([no]))
+                    out.append(ast.fix_missing_locations(ast.copy_location(node, st)))
+                    continue
+            # compound statements: a dynamic index in the header (`for e in d[flag]`) is left to the generic form below
+            hdr_dyn = None
+            if isinstance(st, (ast.For, ast.While, ast.If, ast.With)):
+                hdr = st.iter if isinstance(st, ast.For) else (st.test if isinstance(st, (ast.While, ast.If)) else None)
+                if hdr is not None:
+                    for n in ast.walk(hdr):
+                        if isinstance(n, ast.Subscript) and isinstance(n.value, ast.Name) and n.value.id in todo and not isinstance(n.slice, ast.Constant):
+                            hdr_dyn = n
+            if hdr_dyn is not None:
+                name = hdr_dyn.value.id
+                test = boolean(hdr_dyn.slice)
+                yes = Pick(name, True).visit(copy.deepcopy(st))
+                no = Pick(name, False).visit(copy.deepcopy(st))
+                node = ast.If(test=copy.deepcopy(test), body=[yes], orelse=[no])
+                out.append(ast.fix_missing_locations(ast.copy_location(node, st)))
+                continue
+            out.append(Const().visit(st))
+        return out
+
+    fn.body = rewrite(fn.body)
+    Const().visit(fn)
+    ast.fix_missing_locations(fn)
+    return True
+
+
+def split_tuples(repo: Repo, fn: ast.FunctionDef) -> bool:
+    """scalar replacement of local tuples / records: a local whose every definition is a tuple display of one length (or a NamedTuple /
+    dataclass record construction of one class), `None`, or a copy of such a local, and which is only copied, unpacked, indexed by a
+    constant, read by field name or tested against None, becomes one local per component plus a flag for None:
+        r = (msg, fn)  /  r = None  /  h = r  /  if h is None: ..  /  m, f = h
+      -> r__0 = msg; r__1 = fn; r__none = False  /  r__0 = None; r__1 = None; r__none = True  /  h__0 = r__0; ..  /  if h__none: ..  /  m = h__0; f = h__1
+    (exact: the tuple object itself is never observed).  Function values travelling in such tuples then reach the call that uses
+    them as plain copies.  True when something changed."""
+    parents: Dict[ast.AST, ast.AST] = {}
+    for n in ast.walk(fn):
+        for c in ast.iter_child_nodes(n):
+            parents[c] = n
+    stores: Dict[str, List[ast.AST]] = {}
+    for n in ast.walk(fn):
+        if isinstance(n, ast.Name) and not isinstance(n.ctx, ast.Load):
+            stores.setdefault(n.id, []).append(n)
+    params = {a.arg for x in ast.walk(fn) if isinstance(x, ast.arguments) for a in x.posonlyargs + x.args + x.kwonlyargs + ([x.vararg] if x.vararg else []) + ([x.kwarg] if x.kwarg else [])}
+
+    def record_fields(call: ast.AST) -> Optional[List[ast.AST]]:
+        """the constructor arguments of a record construction in field order"""
+        if not (isinstance(call, ast.Call) and isinstance(call.func, ast.Name) and call.func.id in repo.classes):
+            return None
+        ci = repo.classes[call.func.id]
+        if not getattr(ci, "record_kind", None) or ci.record_kind != "namedtuple" and any(True for _ in ()):
+            return None
+        if any(isinstance(a, ast.Starred) for a in call.args) or any(k.arg is None for k in call.keywords):
+            return None
+        names = [f_ for f_, _d in ci.record_fields]
+        vals: Dict[str, ast.AST] = {}
+        for f_, a in zip(names, call.args):
+            vals[f_] = a
+        for k in call.keywords:
+            vals[k.arg] = k.value
+        out = []
+        for f_, d in ci.record_fields:
+            if f_ in vals:
+                out.append(vals[f_])
+            elif d is not None:
+                out.append(copy.deepcopy(d))
+            else:
+                return None
+        return out
+
+    def shape_of(v: ast.AST):
+        """('tuple', n, None) / ('rec', n, class) / 'none' / ('copy', name) / None"""
+        if isinstance(v, ast.Tuple) and not any(isinstance(x, ast.Starred) for x in v.elts) and v.elts:
+            return ("tuple", len(v.elts), None)
+        rf = record_fields(v)
+        if rf is not None:
+            return ("rec", len(rf), v.func.id)
+        if isinstance(v, ast.Constant) and v.value is None:
+            return "none"
+        if isinstance(v, ast.Name):
+            return ("copy", v.id)
+        return None
+
+    # candidate names: all stores are simple `T = v` with an admissible shape
+    defs: Dict[str, List[ast.stmt]] = {}
+    for nm, sts in stores.items():
+        if nm in params:
+            continue
+        ds = []
+        ok = True
+        for st_name in sts:
+            par = parents.get(st_name)
+            if isinstance(par, ast.Assign) and len(par.targets) == 1 and par.targets[0] is st_name and shape_of(par.value) is not None:
+                ds.append(par)
+            elif isinstance(par, ast.AnnAssign) and par.target is st_name and par.value is not None and shape_of(par.value) is not None:
+                ds.append(par)
+            else:
+                ok = False
+                break
+        if ok and ds:
+            defs[nm] = ds
+    shape: Dict[str, tuple] = {}
+    cand = set(defs)
+    changed = True
+    while changed:
+        changed = False
+        for nm in list(cand):
+            kinds = set()
+            for st in defs[nm]:
+                sh = shape_of(st.value)
+                if sh == "none":
+                    continue
+                if sh[0] == "copy":
+                    if sh[1] not in cand:
+                        cand.discard(nm)
+                        changed = True
+                        break
+                    if sh[1] in shape:
+                        kinds.add(shape[sh[1]])
+                    continue
+                kinds.add(sh)
+            else:
+                if len(kinds) > 1:
+                    cand.discard(nm)
+                    changed = True
+                elif len(kinds) == 1 and shape.get(nm) != next(iter(kinds)):
+                    shape[nm] = next(iter(kinds))
+                    changed = True
+    cand = {nm for nm in cand if nm in shape}
+    # uses
+    changed = True
+    while changed:
+        changed = False
+        for n in ast.walk(fn):
+            if isinstance(n, ast.Name) and isinstance(n.ctx, ast.Load) and n.id in cand:
+                par = parents.get(n)
+                kind, size, cls = shape[n.id]
+                ok = False
+                if isinstance(par, (ast.Assign, ast.AnnAssign)) and par.value is n:
+                    tg = par.targets[0] if isinstance(par, ast.Assign) and len(par.targets) == 1 else getattr(par, "target", None)
+                    if isinstance(tg, ast.Name) and tg.id in cand:
+                        ok = True
+                    elif isinstance(tg, (ast.Tuple, ast.List)) and len(tg.elts) == size and not any(isinstance(x, ast.Starred) for x in tg.elts) \
+                            and (kind == "tuple" or repo.classes[cls].record_kind == "namedtuple"):
+                        ok = True
+                elif isinstance(par, ast.Compare) and len(par.ops) == 1 and isinstance(par.ops[0], (ast.Is, ast.IsNot)) and par.left is n \
+                        and isinstance(par.comparators[0], ast.Constant) and par.comparators[0].value is None:
+                    ok = True
+                elif isinstance(par, ast.Subscript) and par.value is n and isinstance(par.slice, ast.Constant) and isinstance(par.slice.value, int) \
+                        and 0 <= par.slice.value < size and isinstance(par.ctx, ast.Load) and (kind == "tuple" or repo.classes[cls].record_kind == "namedtuple"):
+                    ok = True
+                elif isinstance(par, ast.Attribute) and par.value is n and kind == "rec" and isinstance(par.ctx, ast.Load) \
+                        and par.attr in [f_ for f_, _d in repo.classes[cls].record_fields]:
+                    ok = True
+                if not ok:
+                    cand.discard(n.id)
+                    changed = True
+        # a copy into / from a name that dropped out drops too
+        for nm in list(cand):
+            for st in defs[nm]:
+                sh = shape_of(st.value)
+                if sh != "none" and sh[0] == "copy" and sh[1] not in cand:
+                    cand.discard(nm)
+                    changed = True
+    if not cand:
+        return False
+
+    comp = lambda nm, i: f"{nm}__{i}"
+    none_flag = lambda nm: f"{nm}__none"
+
+    def mk(target: str, value: ast.AST, at: ast.AST) -> ast.stmt:
+        st = ast.Assign(targets=[ast.Name(id=target, ctx=ast.Store())], value=value, lineno=getattr(at, "lineno", 1))
+        ast.copy_location(st, at)
+        return ast.fix_missing_locations(st)
+
+    class Uses(ast.NodeTransformer):
+        def visit_Compare(self, n):
+            self.generic_visit(n)
+            if len(n.ops) == 1 and isinstance(n.ops[0], (ast.Is, ast.IsNot)) and isinstance(n.left, ast.Name) and n.left.id in cand \
+                    and isinstance(n.comparators[0], ast.Constant) and n.comparators[0].value is None:
+                flag: ast.expr = ast.Name(id=none_flag(n.left.id), ctx=ast.Load())
+                if isinstance(n.ops[0], ast.IsNot):
+                    flag = ast.UnaryOp(op=ast.Not(), operand=flag)
+                return ast.fix_missing_locations(ast.copy_location(flag, n))
+            return n
+
+        def visit_Subscript(self, n):
+            self.generic_visit(n)
+            if isinstance(n.value, ast.Name) and n.value.id in cand and isinstance(n.slice, ast.Constant) and isinstance(n.ctx, ast.Load):
+                return ast.copy_location(ast.Name(id=comp(n.value.id, n.slice.value), ctx=ast.Load()), n)
+            return n
+
+        def visit_Attribute(self, n):
+            self.generic_visit(n)
+            if isinstance(n.value, ast.Name) and n.value.id in cand and shape[n.value.id][0] == "rec" and isinstance(n.ctx, ast.Load):
+                names = [f_ for f_, _d in repo.classes[shape[n.value.id][2]].record_fields]
+                if n.attr in names:
+                    return ast.copy_location(ast.Name(id=comp(n.value.id, names.index(n.attr)), ctx=ast.Load()), n)
+            return n
+
+    def rewrite(stmts: List[ast.stmt]) -> List[ast.stmt]:
+        out: List[ast.stmt] = []
+        for st in stmts:
+            for fld in ("body", "orelse", "finalbody"):
+                sub = getattr(st, fld, None)
+                if isinstance(sub, list) and sub and isinstance(sub[0], ast.stmt) and not isinstance(st, (ast.FunctionDef, ast.AsyncFunctionDef, ast.ClassDef)):
+                    setattr(st, fld, rewrite(sub))
+            for h in getattr(st, "handlers", []) or []:
+                h.body = rewrite(h.body)
+            tgt = val = None
+            if isinstance(st, ast.Assign) and len(st.targets) == 1:
+                tgt, val = st.targets[0], st.value
+            elif isinstance(st, ast.AnnAssign) and st.value is not None:
+                tgt, val = st.target, st.value
+            if isinstance(tgt, ast.Name) and tgt.id in cand:
+                size = shape[tgt.id][1]
+                sh = shape_of(val)
+                if sh == "none":
+                    for i in range(size):
+                        out.append(mk(comp(tgt.id, i), ast.Constant(value=None), st))
+                    out.append(mk(none_flag(tgt.id), ast.Constant(value=True), st))
+                elif sh[0] == "copy":
+                    for i in range(size):
+                        out.append(mk(comp(tgt.id, i), ast.Name(id=comp(sh[1], i), ctx=ast.Load()), st))
+                    out.append(mk(none_flag(tgt.id), ast.Name(id=none_flag(sh[1]), ctx=ast.Load()), st))
+                else:
+                    parts = list(val.elts) if sh[0] == "tuple" else record_fields(val)
+                    tmp = [Uses().visit(x) for x in parts]
+                    for i, x in enumerate(tmp):
+                        out.append(mk(comp(tgt.id, i), x, st))
+                    out.append(mk(none_flag(tgt.id), ast.Constant(value=False), st))
+                continue
+            if isinstance(tgt, (ast.Tuple, ast.List)) and isinstance(val, ast.Name) and val.id in cand:
+                for i, t in enumerate(tgt.elts):
+                    new = ast.Assign(targets=[t], value=ast.Name(id=comp(val.id, i), ctx=ast.Load()), lineno=st.lineno)
+                    out.append(ast.fix_missing_locations(ast.copy_location(new, st)))
+                continue
+            out.append(Uses().visit(st))
+        return out
+
+    fn.body = rewrite(fn.body)
+    ast.fix_missing_locations(fn)
+    return True
 
 
 FoldedConstant = type("Constant", (ast.Constant,), {"const_name": "", "__doc__": "a module-level literal constant put in place of its name"})
